@@ -9,6 +9,8 @@
  *                                         DFTAG_COMPRESSED stream are written as plain elements, then ops run
  *       ops:  W n b1..bn | S off | R n | E | OR | OW | C | Z | X
  *   B nops op...                          bit element:  w count value | r count | s byte bit | e fill | or | ow
+ *   BI n b1..bn nops op...                bit element whose n bytes are stored with Hputelement first (any length,
+ *                                         e.g. a short last 4096-byte block), then ops (or | r | s | e | x)
  *   H coder p1 p2 p3 p4 p5                HCPquery_encode_header + HCPencode_header + HCPdecode_header
  *   D n b1..bn                            HCPdecode_header on given bytes
  *
@@ -285,17 +287,29 @@ case_inject(FILE *f)
 }
 
 static void
-case_bits(FILE *f)
+case_bits(FILE *f, int inject)
 {
-    long  nops = rdl(f);
+    long  nops;
     char  t[16];
     int32 fid = Hopen(path, DFACC_CREATE, 0), bid;
     if (fid == FAIL)
         exit(3);
-    bid = Hstartbitwrite(fid, TAG, REF, 0);
-    if (bid != FAIL)
-        Hbitappendable(bid);
-    emit_n(bid == FAIL ? -1 : 0);
+    if (inject) {
+        long           n = rdl(f);
+        unsigned char *b = (unsigned char *)malloc(n > 0 ? (size_t)n : 1);
+        for (long i = 0; i < n; i++)
+            b[i] = (unsigned char)rdl(f);
+        emit_n(Hputelement(fid, TAG, REF, b, (int32)n) == FAIL ? -1 : 0);
+        free(b);
+        bid = FAIL;
+    }
+    else {
+        bid = Hstartbitwrite(fid, TAG, REF, 0);
+        if (bid != FAIL)
+            Hbitappendable(bid);
+        emit_n(bid == FAIL ? -1 : 0);
+    }
+    nops = rdl(f);
     for (long k = 0; k < nops; k++) {
         rdtok(f, t);
         if (!strcmp(t, "w")) {
@@ -460,7 +474,9 @@ main(int argc, char **argv)
         else if (!strcmp(k, "I"))
             case_inject(f);
         else if (!strcmp(k, "B"))
-            case_bits(f);
+            case_bits(f, 0);
+        else if (!strcmp(k, "BI"))
+            case_bits(f, 1);
         else if (!strcmp(k, "H"))
             case_header(f);
         else if (!strcmp(k, "D"))
